@@ -902,6 +902,33 @@ var Faults = []Fault{
 		d.Vars = append(d.Vars, m.VarDef{Name: "neverUsed", Type: &m.Type{Name: c.R.Pick("Int", "String", "Boolean")}})
 		return true
 	}},
+	{"bad-directive-on-variable-definition", "KnownDirectives", func(c *FCtx) bool {
+		// a directive nobody defines, or one that is not for this place, on a variable definition - by preference on one that
+		// also has a default value (after seeded change C08-wave10-B: the directives of a definition were only walked when it
+		// had no default)
+		var with, all []*m.VarDef
+		for _, d := range c.ops() {
+			for i := range d.Vars {
+				all = append(all, &d.Vars[i])
+				if d.Vars[i].Default != nil {
+					with = append(with, &d.Vars[i])
+				}
+			}
+		}
+		if len(with) > 0 && c.R.Chance(3, 4) {
+			all = with
+		}
+		if len(all) == 0 {
+			return false
+		}
+		v := all[c.R.Intn(len(all))]
+		if c.R.Bool() {
+			v.Dirs = append(v.Dirs, m.Dir{Name: c.R.Pick("nope", "onVariable", "skipp")})
+		} else {
+			v.Dirs = append(v.Dirs, m.Dir{Name: "skip", Args: []m.Arg{{Name: "if", Value: val(m.VBool, "true")}}})
+		}
+		return true
+	}},
 	{"duplicate-variable", "UniqueVariableNames", func(c *FCtx) bool {
 		for _, d := range c.ops() {
 			if len(d.Vars) > 0 {
